@@ -875,15 +875,44 @@ func c19Data() data.Map {
 const c19ParamDoc = "/**\n * @param a\n * @param s\n * @param t\n * @param f\n * @param list\n * @param empty\n * @param m\n * @param? missing\n */\n"
 const c19UseAll = "{$a}{$s}{if $t}{/if}{if $f}{/if}{foreach $q0 in $list}{/foreach}{foreach $q0 in $empty}{/foreach}{$m.k}{$missing ?: ''}"
 
-// chain files: template c19.x<i>.c<i> in file chain<i>.soy calls the next one; the last holds the failing print
-func c19ChainFiles(r *hx.Rand, depth int, failPrint string) []srcFile {
+// c19ChainNS: the namespace of the i-th chain file.  With shared set, every chain file declares the
+// ENTRY file's namespace (several files per namespace are legal: what is recorded per template must not
+// be looked up per namespace).
+func c19ChainNS(shared bool, i int) string {
+	if shared {
+		return "c19.e"
+	}
+	return fmt.Sprintf("c19.x%d", i)
+}
+
+// c19Siblings: further files that declare the entry file's namespace, much shorter and much longer than it
+func c19Siblings(r *hx.Rand) []srcFile {
+	var out []srcFile
+	for k := r.Intn(3); k > 0; k-- {
+		var sb strings.Builder
+		if r.Bool() {
+			sb.WriteString("// sibling file of the same namespace\n\n\n")
+		}
+		sb.WriteString("{namespace c19.e}\n")
+		sb.WriteString(fmt.Sprintf("/** a sibling */\n{template .sib%d}\n", k))
+		for n := []int{0, 2, 90 + r.Intn(120)}[r.Intn(3)]; n > 0; n-- {
+			sb.WriteString(r.Pick([]string{"sibling filler line\n", "\n", "{sp}\n"}))
+		}
+		sb.WriteString("x\n{/template}\n")
+		out = append(out, srcFile{fmt.Sprintf("sibling%d.soy", k), sb.String()})
+	}
+	return out
+}
+
+// chain files: template <ns i>.c<i> in file chain<i>.soy calls the next one; the last holds the failing print
+func c19ChainFiles(r *hx.Rand, depth int, failPrint string, shared bool) []srcFile {
 	var files []srcFile
 	for i := 1; i <= depth; i++ {
 		var sb strings.Builder
 		for k := r.Intn(6); k > 0; k-- {
 			sb.WriteString(r.Pick([]string{"\n", "// a comment line\n", "/* block\n   comment */\n"}))
 		}
-		sb.WriteString(fmt.Sprintf("{namespace c19.x%d}\n\n", i))
+		sb.WriteString("{namespace " + c19ChainNS(shared, i) + "}\n\n")
 		sb.WriteString("/**\n * @param? p\n * @param? q\n * @param? a\n * @param? s\n * @param? t\n * @param? f\n * @param? list\n * @param? empty\n * @param? m\n * @param? missing\n */\n")
 		sb.WriteString(fmt.Sprintf("{template .c%d}\n", i))
 		sb.WriteString("{$p ?: ''}{$q ?: ''}{$a ?: ''}{$s ?: ''}{$t ?: ''}{$f ?: ''}{$list ?: ''}{$empty ?: ''}{$m ?: ''}{$missing ?: ''}\n")
@@ -896,7 +925,7 @@ func c19ChainFiles(r *hx.Rand, depth int, failPrint string) []srcFile {
 		}
 		inner := failPrint
 		if i < depth {
-			inner = r.Pick(c19CallForms(fmt.Sprintf("c19.x%d.c%d", i+1, i+1))[:6])
+			inner = r.Pick(c19CallForms(fmt.Sprintf("%s.c%d", c19ChainNS(shared, i+1), i+1))[:6])
 			inner = strings.ReplaceAll(inner, "$a", "1")
 			inner = strings.ReplaceAll(inner, "{if $t}", "{if true}")
 		}
@@ -951,6 +980,7 @@ func c19RenderCases(e *env, nShapes int) []c19RenderCase {
 					continue // quick tier: thin out the deeper chains
 				}
 				failPrint := e.rng.Pick(c19FailPrints)
+				shared := e.rng.Bool()
 				var cmd string
 				if depth == 0 {
 					cmd = failPrint
@@ -958,7 +988,7 @@ func c19RenderCases(e *env, nShapes int) []c19RenderCase {
 						cmd = e.rng.Pick(c19FailOther)
 					}
 				} else {
-					forms := c19CallForms("c19.x1.c1")
+					forms := c19CallForms(c19ChainNS(shared, 1) + ".c1")
 					cmd = forms[e.rng.Intn(len(forms))]
 					for slot.inMsg && strings.Contains(cmd, "{if") {
 						cmd = forms[e.rng.Intn(len(forms))] // no {if} inside a {msg}
@@ -981,12 +1011,20 @@ func c19RenderCases(e *env, nShapes int) []c19RenderCase {
 				}
 				text, first := c19EntryFile(e.rng, body, lead, pre)
 				files := []srcFile{{entryName, text}}
-				chain := c19ChainFiles(e.rng, depth, failPrint)
+				chain := c19ChainFiles(e.rng, depth, failPrint, shared)
 				// the entry file is not always the first file of the bundle
 				if e.rng.Bool() {
 					files = append(chain, files...)
 				} else {
 					files = append(files, chain...)
+				}
+				// files sharing the entry file's namespace, added before or after everything else
+				for _, sib := range c19Siblings(e.rng) {
+					if e.rng.Bool() {
+						files = append([]srcFile{sib}, files...)
+					} else {
+						files = append(files, sib)
+					}
 				}
 				out = append(out, c19RenderCase{Kind: "render", Files: files, Entry: "c19.e.entry", Depth: depth, Fail: cmd + " // " + failPrint,
 					ExpectFile: entryName, ExpectLine: first + failIdx, Shape: fmt.Sprintf("shape%d/slot%d", s, si)})
